@@ -21,6 +21,12 @@ structure St where
   updated : List Str := []                -- `updated_manifests`
   nextId : Nat := 0
   dev? : Option Nat := none
+  /-- the loader's `sign_openpgp` option: `none` = keep what the top-level Manifest had -/
+  signOpt : Option Bool := none
+  /-- `openpgp_signed` of the top-level Manifest object: loaded with a verified signature -/
+  topSigned : Bool := false
+  /-- whether `gpg --clearsign` with the configured key succeeds -/
+  keyUsable : Bool := true
 deriving Repr
 
 def St.val (s : St) (id : Nat) : Option Entry := (s.heap.find? (·.1 == id)).map (·.2)
